@@ -116,7 +116,8 @@ func newScripted(c c20Case, s *gen.Stream) (*scripted, []byte) {
 	case 1:
 		sg.header = map[string][]string{}
 	default:
-		sg.header = map[string][]string{"Tcb-Info-Issuer-Chain": {string(s.Bytes(40))}, "X-Multi": {"a", "b"}}
+		// (a success is a success whatever its headers claim about the body)
+		sg.header = map[string][]string{"Tcb-Info-Issuer-Chain": {string(s.Bytes(40))}, "X-Multi": {"a", "b"}, "Content-Length": {"1048577"}, "content-length": {"7"}, "Retry-After": {"120"}, "Transfer-Encoding": {"chunked"}}
 	}
 	if c.BodyLen >= 0 {
 		sg.body = s.Bytes(c.BodyLen)
